@@ -8,7 +8,7 @@ Driver for C12. Case lines:
          <nSched> <actor>*  <nIds> <id>*
     => <nEv> { <vis> <out> }*  <nFinal> <vis>*  <nProbes> { {0|1 <id>} {0|1 <id>} }*
 
-  vis: N E FF WD WR WC FD SF B D        out: - | M a|r|n | H {0 | 1 <id>} | U o|f|n | X
+  vis: N E FF WD WR WC FD SF RC B D        out: - | M a|r|n | H {0 | 1 <id>} | U o|f|n | X
   (routeKind — direct / group / mount / version — is not a model input: all four go through the same checks)
 -/
 namespace Rivaas.DriverC12
@@ -30,7 +30,8 @@ def pVis : P Vis := do
   match k with
   | "N" => pure .notStarted | "E" => pure .serveEntry | "FF" => pure .freezeFlags
   | "WD" => pure .warmupDrained | "WR" => pure .warmupRegistered | "WC" => pure .warmupCompiled
-  | "FD" => pure .freezeDone | "SF" => pure .serveFrozen | "B" => pure .blocked | "D" => pure .done
+  | "FD" => pure .freezeDone | "SF" => pure .serveFrozen | "RC" => pure .registerChecked
+  | "B" => pure .blocked | "D" => pure .done
   | _ => failure
 
 def pOut : P Out := do
@@ -70,7 +71,7 @@ def pObs : P Obs := do
 def encVis : Vis → String
   | .notStarted => "N" | .serveEntry => "E" | .freezeFlags => "FF" | .warmupDrained => "WD"
   | .warmupRegistered => "WR" | .warmupCompiled => "WC" | .freezeDone => "FD" | .serveFrozen => "SF"
-  | .blocked => "B" | .done => "D"
+  | .registerChecked => "RC" | .blocked => "B" | .done => "D"
 
 def encOptNat : Option Nat → String
   | none => "0"
@@ -147,6 +148,10 @@ def step (line : String) : String :=
   | none => "? bad-line"
   | some (id, inp, obs) =>
     if inp.head? == some "U" then stepU id inp obs else
+    -- free-running stress run: the harness reports whether the interleaving-independent facts held
+    if inp.head? == some "S" then
+      (let ok := obs.head? == some "OK"
+       verdict id ok ok "-" "OK") else
     match runP pInput inp, runP pObs obs with
     | some (kinds, sched, ids), some o =>
       let m := modelObs kinds sched ids
